@@ -103,7 +103,7 @@ pub fn run(def: &'static PropDef, runs: u64, seed: u64) -> i32 {
             .arg(format!("-artifact_prefix={}/", artifacts.display()))
             .arg(format!("-runs={}", per_job))
             .arg(format!("-seed={}", seed.wrapping_mul(1000).wrapping_add(j as u64 + 1) & 0x7fff_ffff))
-            .args(["-max_len=4096", "-len_control=0", "-timeout=600", "-rss_limit_mb=4096", "-print_final_stats=1", "-verbosity=0", "-report_slow_units=120"])
+            .args(["-max_len=4096", "-len_control=0", "-timeout=1200", "-rss_limit_mb=4096", "-print_final_stats=1", "-verbosity=0", "-report_slow_units=120"])
 
             .stdin(Stdio::null())
             .stdout(Stdio::null())
@@ -172,7 +172,9 @@ pub fn run(def: &'static PropDef, runs: u64, seed: u64) -> i32 {
                             }
                         }
                         Some(v) if v.starts_with("KNOWN") || v.starts_with("PASS") => {
-                            if v.starts_with("PASS") {
+                            // timeout-/oom- artefacts of the instrumented build that complete in
+                            // the release build are slow cases, not verdicts
+                            if v.starts_with("PASS") && !(fname.starts_with("timeout-") || fname.starts_with("oom-")) {
                                 undecided.push(format!("fuzzer artefact {} does not reproduce through replay", f.display()));
                             }
                         }
